@@ -401,6 +401,31 @@ def check(pid, tier, seed):
                 errs = "\n".join(l for l in out.splitlines() if l.startswith("error") or l.startswith("  -->"))[:3000]
                 raise Undecided("staged crate does not compile (anchor lost or signature changed):\n" + errs)
         cov["checker_cmd"] = " ; ".join(cmds)
+        # counterexamples for every refuted non-canary harness with a clause that is not a recorded
+        # finding: ONE parallel playback run per flag group
+        need_pb = []
+        for n in names:
+            v = results.get(n)
+            if not v or v["status"] != "failed" or n in canaries:
+                continue
+            if any(not known_match(known, pid, n, fc["desc"]) for fc in v["failed_checks"]):
+                need_pb.append(n)
+        playback_results = {}
+        if need_pb:
+            # --concrete-playback is incompatible with --jobs > 1: several single-harness runs side by side
+            from concurrent.futures import ThreadPoolExecutor
+
+            def one(n):
+                fl = [f for g in groups if re.search(g["match"], n) for f in g.get("flags", [])][:]
+                for g in groups:
+                    if re.search(g["match"], n):
+                        fl = list(g.get("flags", []))
+                        break
+                r1, _, _, _ = run_kani(stage, pid, [n], fl, cfg.get("timeout", 600) * 2, 1, playback=True)
+                return r1
+            with ThreadPoolExecutor(max_workers=min(8, len(need_pb))) as ex:
+                for r1 in ex.map(one, need_pb[:24]):
+                    playback_results.update(r1)
         harness_rows = []
         for n in names:
             v = results.get(n) or {"status": "missing", "checks": 0, "failed": 0, "undetermined": 0, "failed_checks": [], "covers_sat": 0, "covers_total": 0, "time_s": None}
@@ -444,9 +469,8 @@ def check(pid, tier, seed):
             if all(re.search(r"unwinding assertion", fc["desc"]) for fc in new) and not cfg.get("unwind_is_clause"):
                 undecided.append("harness %s: unwinding assertion failed (bound too small), not a refutation" % n)
                 continue
-            # counterexample + native replay
-            pres, pout, _, pcmd = run_kani(stage, pid, [n], [f for g in groups if re.search(g["match"], n) for f in g.get("flags", [])],
-                                           cfg.get("timeout", 600) * 2, 1, playback=True)
+            # counterexample (from the batched playback run) + native replay
+            pres = playback_results
             pv = pres.get(n, {})
             for fc in new:
                 # candidates: the test Kani printed for this obligation first; Kani de-duplicates tests by
